@@ -88,7 +88,7 @@ def base_cases(tier, rng, json_layer):
 
 
 def make(rng, shape, json_layer):
-    cls = rng.choice(["anynode", "anynode", "node", "mixin", "strict", "lenmixin", "falsyany"])
+    cls = rng.choice(["anynode", "anynode", "node", "mixin", "strict", "lenmixin", "falsyany", "eqmixin"])
     need_name = cls == "node" or (cls != "node" and False)
     t = atree(shape, rng, cls == "node")
     h = shape_height(shape)
